@@ -57,7 +57,7 @@ def strings_as_words(python_object):
         return [tokenizer.word(value="Auto")]
     words = []
     for value in python_object:
-        if is_standard_identifier(value):
+        if is_standard_identifier(value) and value.lower() not in ("none", "auto"):
             words.append(tokenizer.word(value=value))
         else:
             words.append(tokenizer.word(value=value, quote_token='"'))
